@@ -15,6 +15,7 @@ import (
 	"os/exec"
 	"path"
 	"path/filepath"
+	"runtime/debug"
 	"sort"
 	"strconv"
 	"strings"
@@ -1163,7 +1164,13 @@ func runLoaderProp(prop string, judge string) {
 				} else {
 					for _, part := range strings.Split(o.After, ";") {
 						if f := strings.Fields(strings.ReplaceAll(part, ":", " ")); len(f) == 2 {
-							sigs = append(sigs, "after-load:"+f[0]+"-"+f[1])
+							sig := "after-load:" + f[0] + "-" + f[1] // e.g. internalize-panic@openapi3.(*T).derefHeaders, internalize-timeout
+							if f[1] == "timeout" && f[0] == "internalize" && lcaseCallbackCycle(c) {
+								// the recorded finding: the descent through a callback that registers itself (it ends in a
+								// stack overflow or, on a slow machine, in the watchdog)
+								sig += ":callback-reaches-itself"
+							}
+							sigs = append(sigs, sig)
 						}
 					}
 				}
@@ -1256,11 +1263,28 @@ func afterOps(c *LCase) string {
 		done := make(chan any, 1)
 		fmt.Printf("phase %s\n", name)
 		os.Stdout.Sync()
-		go func() { done <- catchPanic(f) }()
+		go func() {
+			// a panic is identified by the library function it came out of
+			defer func() {
+				if r := recover(); r != nil {
+					where := "unknown"
+					for _, fr := range kinFrame.FindAllString(string(debug.Stack()), -1) {
+						if !strings.Contains(fr, "verifharness") {
+							where = strings.TrimPrefix(fr, "github.com/getkin/kin-openapi/")
+							break
+						}
+					}
+					done <- where
+					return
+				}
+				done <- nil
+			}()
+			f()
+		}()
 		select {
 		case p := <-done:
 			if p != nil {
-				res += name + ": panic; "
+				res += name + ": panic@" + strings.NewReplacer(" ", "", ";", "", ":", "").Replace(fmt.Sprint(p)) + "; "
 			}
 		case <-time.After(2 * time.Second):
 			// the spinning goroutine cannot be stopped: report and let the process die
@@ -1523,6 +1547,37 @@ func c20Directed() []LCase {
 		b.WriteString(`"S64":{"type":"string"}}}}`)
 		mk(b.String())
 	}
+	// ... and diamonds whose two edges are siblings one level down: two properties (or the two members of an
+	// allOf) that both reach the next level through the same keyword
+	for _, kind := range []string{"additionalProperties", "items", "not", "allOf", "properties", "oneOf"} {
+		for _, holder := range []string{"properties", "allOf"} {
+			var b strings.Builder
+			b.WriteString(`{"openapi":"3.0.3","info":{"title":"t","version":"1"},"paths":{},"components":{"schemas":{`)
+			for i := 0; i < 48; i++ {
+				ref := fmt.Sprintf(`{"$ref":"#/components/schemas/S%d"}`, i+1)
+				var via string
+				switch kind {
+				case "allOf", "oneOf":
+					via = fmt.Sprintf(`{%q:[%s]}`, kind, ref)
+				case "properties":
+					via = fmt.Sprintf(`{"type":"object","properties":{"x":%s}}`, ref)
+				case "items":
+					via = fmt.Sprintf(`{"type":"array","items":%s}`, ref)
+				case "additionalProperties":
+					via = fmt.Sprintf(`{"type":"object","additionalProperties":%s}`, ref)
+				default:
+					via = fmt.Sprintf(`{%q:%s}`, kind, ref)
+				}
+				if holder == "properties" {
+					fmt.Fprintf(&b, `"S%d":{"type":"object","properties":{"a":%s,"b":%s}},`, i, via, via)
+				} else {
+					fmt.Fprintf(&b, `"S%d":{"allOf":[%s,%s]},`, i, via, via)
+				}
+			}
+			b.WriteString(`"S48":{"type":"string"}}}}`)
+			mk(b.String())
+		}
+	}
 	// every node of a complete document replaced by null (one at a time)
 	var full any
 	must(json.Unmarshal([]byte(base("#/components/schemas/A", "schema")), &full))
@@ -1570,6 +1625,18 @@ func c20Directed() []LCase {
 				mk(`{"openapi":"3.0.3","info":{"title":"t","version":"1"},"paths":{},"components":{"schemas":{"A":{"type":"string"},"S":{` + ctx + `,` + fmt.Sprintf("%q", k) + `:` + v + `}}}}`)
 			}
 		}
+	}
+	// a specification of two files whose root sits at different depths - directly under the root of its file
+	// system or server included: internalising must end whatever the common directory of the two locations is
+	for _, root := range []string{"/openapi.yaml", "https://example.com/openapi.yaml", "/a/openapi.yaml", "https://example.com/a/b/openapi.yaml", "file:///openapi.yaml"} {
+		dir := root[:strings.LastIndex(root, "/")+1]
+		common := map[string]any{"openapi": "3.0.3", "info": map[string]any{"title": "c", "version": "1"}, "paths": map[string]any{},
+			"components": map[string]any{"schemas": map[string]any{"Shared": map[string]any{"type": "object", "properties": map[string]any{"self": map[string]any{"$ref": "#/components/schemas/Shared"}}}},
+				"parameters": map[string]any{"P": map[string]any{"name": "p", "in": "query", "schema": map[string]any{"type": "string"}}}}}
+		rootDoc := `{"openapi":"3.0.3","info":{"title":"t","version":"1"},"paths":{"/a":{"get":{"parameters":[{"$ref":"common.yaml#/components/parameters/P"}],` +
+			`"responses":{"200":{"description":"ok","content":{"application/json":{"schema":{"$ref":"common.yaml#/components/schemas/Shared"}}}}}}}}}`
+		out = append(out, LCase{Allow: true, Entry: 2, Root: root, Bytes: rootDoc,
+			Files: []LFile{{URI: root, Doc: map[string]any{"openapi": "3.0.3"}}, {URI: dir + "common.yaml", Doc: common}}})
 	}
 	return out
 }
